@@ -18,9 +18,19 @@ open Hv.Beacon
 /-- Full-strength statement: after every history, every index read that is answered is a
     correct page of the swamp's current contents.  (`answer = none` is the gateway's
     "Swamp does not exist" when no record is alive.) -/
-def Holds (cfg : Cfg) : Prop :=
+def HoldsSeq (cfg : Cfg) : Prop :=
   ∀ (h : List Op) (q : Query) (res : List Rec),
     answer cfg (run cfg h) q = some res → CorrectPage res q (run cfg h).store
+
+/-- …also for the second of two concurrent first readers of an index (the only concurrency in
+    this property: reads that race on the lazy build; writes stay sequential) -/
+def HoldsRace (cfg : Cfg) : Prop :=
+  ∀ (h : List Op) (q : Query) (res : List Rec),
+    answerSecond cfg (run cfg h) q = some res → CorrectPage res q (run cfg h).store
+
+/-- Full-strength statement: every answered read is a correct page, the second of two racing
+    first readers included. -/
+def Holds (cfg : Cfg) : Prop := HoldsSeq cfg ∧ HoldsRace cfg
 
 /-- the same, for reads of the index types in `S` only (the history is still arbitrary) -/
 def HoldsFor (cfg : Cfg) (S : Slot → Prop) : Prop :=
@@ -282,16 +292,18 @@ theorem slotGood_of (cfg : Cfg) (s : Slot) (h : slotGoodB cfg s = true) : SlotGo
               · exact Or.inl (by simp [refreshes, h4, hc]) }
 
 /-- all facts sound -/
-def goodB (cfg : Cfg) : Bool :=
+def seqGoodB (cfg : Cfg) : Bool :=
   bsGoodB cfg && slotGoodB cfg .key && slotGoodB cfg .created && slotGoodB cfg .updated &&
   slotGoodB cfg .expire && slotGoodB cfg (.value .i64)
+
+def goodB (cfg : Cfg) : Bool := seqGoodB cfg && cfg.initialisedAfterFill
 
 /-- **Full theorem (repaired facts).**  If every change of a sort attribute re-files the record,
     incremental inserts re-sort with the beacon's own comparator, cold builds and inserts admit
     exactly the carriers, value indexes are per type, and the four search operators are `<`,
     then every index read after every history is a correct page. -/
-theorem holds_of_good (cfg : Cfg) (h : goodB cfg = true) : Holds cfg := by
-  simp only [goodB, Bool.and_eq_true] at h
+theorem holdsSeq_of_good (cfg : Cfg) (h : seqGoodB cfg = true) : HoldsSeq cfg := by
+  simp only [seqGoodB, Bool.and_eq_true] at h
   obtain ⟨⟨⟨⟨⟨hb, hk⟩, hc⟩, hu⟩, he⟩, hv⟩ := h
   intro hist q res ha
   have hsg : SlotGood cfg q.slot := by
@@ -302,6 +314,19 @@ theorem holds_of_good (cfg : Cfg) (h : goodB cfg = true) : Holds cfg := by
     | expire => exact slotGood_of cfg _ he
     | value t => exact slotGood_of cfg _ (by simpa [slotGoodB] using hv)
   exact slot_correct cfg (bsGood_of cfg hb) q.slot hsg hist q res rfl ha
+
+/-- with the flag published last, the second of two racing first readers is answered like a lone one -/
+theorem holdsRace_of (cfg : Cfg) (hs : HoldsSeq cfg) (hf : cfg.initialisedAfterFill = true) : HoldsRace cfg := by
+  intro hist q res ha
+  unfold answerSecond at ha
+  by_cases he : (run cfg hist).store.isEmpty = true
+  · simp [he] at ha
+  · simp only [he, Bool.false_eq_true, if_false, hf, Bool.or_true, if_true] at ha
+    exact hs hist q res ha
+
+theorem holds_of_good (cfg : Cfg) (h : goodB cfg = true) : Holds cfg := by
+  simp only [goodB, Bool.and_eq_true] at h
+  exact ⟨holdsSeq_of_good cfg h.1, holdsRace_of cfg (holdsSeq_of_good cfg h.1) h.2⟩
 
 /-- **Partial theorem.**  Whatever the other facts are: the index types whose own facts are sound
     are always read correctly, for every history (including histories that break other indexes). -/
@@ -374,7 +399,7 @@ def witnessFails (cfg : Cfg) (h : List Op) (q : Query) : Bool :=
 
 /-- a failing witness refutes the property for those facts — whatever the facts are -/
 theorem refutes_of_witness (cfg : Cfg) (h : List Op) (q : Query)
-    (hw : witnessFails cfg h q = true) : ¬ Holds cfg := by
+    (hw : witnessFails cfg h q = true) : ¬ HoldsSeq cfg := by
   intro hh
   unfold witnessFails at hw
   simp only [Bool.and_eq_true, beq_iff_eq] at hw
@@ -419,15 +444,44 @@ def witnesses : List (String × List Op × Query) := [
     [setOp "k1" .i64 1 0 0 0, .read (fullRead .key true), setOp "k1" .void 0 0 0 0], fullRead .key true)]
 
 /-- the findings whose witness fails under `cfg` -/
-def findings (cfg : Cfg) : List String :=
+def seqFindings (cfg : Cfg) : List String :=
   ((witnesses.filter (fun w => witnessFails cfg w.2.1 w.2.2)).map (·.1)).eraseDups
 
-theorem refutes_of_findings (cfg : Cfg) (h : findings cfg ≠ []) : ¬ Holds cfg := by
-  unfold findings at h
+theorem refutes_of_seqFindings (cfg : Cfg) (h : seqFindings cfg ≠ []) : ¬ HoldsSeq cfg := by
+  unfold seqFindings at h
   have : witnesses.filter (fun w => witnessFails cfg w.2.1 w.2.2) ≠ [] := by
     intro he; rw [he] at h; exact h (by simp)
   obtain ⟨w, hw⟩ := List.exists_mem_of_ne_nil _ this
   exact refutes_of_witness cfg w.2.1 w.2.2 (List.mem_filter.mp hw).2
+
+/-- the race witness: one record; two first readers of the key index, ascending -/
+def raceHistory : List Op := [setOp "k1" .i64 1 0 0 0]
+
+def raceFails (cfg : Cfg) : Bool :=
+  match answerSecond cfg (run cfg raceHistory) (fullRead .key true) with
+  | some res => !unpagedOk (fullRead .key true) res (run cfg raceHistory).store
+  | none => false
+
+theorem refutes_of_race (cfg : Cfg) (h : raceFails cfg = true) : ¬ HoldsRace cfg := by
+  intro hh
+  unfold raceFails at h
+  cases ha : answerSecond cfg (run cfg raceHistory) (fullRead .key true) with
+  | none => simp [ha] at h
+  | some res =>
+    have := unpagedOk_of_correct (fullRead .key true) res _ rfl rfl (hh raceHistory (fullRead .key true) res ha)
+    simp [ha, this] at h
+
+def findings (cfg : Cfg) : List String :=
+  seqFindings cfg ++ (if raceFails cfg then ["C07-first-readers-race"] else [])
+
+theorem refutes_of_findings (cfg : Cfg) (h : findings cfg ≠ []) : ¬ Holds cfg := by
+  intro hh
+  unfold findings at h
+  by_cases hs : seqFindings cfg = []
+  · by_cases hr : raceFails cfg = true
+    · exact refutes_of_race cfg hr hh.2
+    · simp [hs, hr] at h
+  · exact refutes_of_seqFindings cfg hs hh.1
 
 /-- the facts of the tree before the four `fix:` commits on the index maintenance -/
 def beforeFix : Cfg := {
@@ -436,16 +490,19 @@ def beforeFix : Cfg := {
   coldFilterCreated := true, coldFilterUpdated := true, coldFilterExpire := true, coldFilterValueType := false,
   addGuardCreated := true, addGuardUpdated := true, addGuardExpire := true, addGuardValueType := false,
   updRefreshCreated := false, updRefreshUpdated := false, updRefreshValue := false, updRefreshExpireOnFlag := true,
-  typeChangeDetected := false, valueShared := true, flagsSticky := true, setVoidClearsTyped := false }
+  typeChangeDetected := false, valueShared := true, flagsSticky := true, setVoidClearsTyped := false,
+  initialisedAfterFill := false }
 
 /-- the facts of the tree as of this writing: `SaveFunction` re-files a treasure in the built
     creation-time or update-time index when that timestamp changes, and any add to / content change in
-    a built value index drops it (the next read rebuilds it with the requested type's comparator) -/
+    a built value index drops it (the next read rebuilds it with the requested type's comparator);
+    `buildBeacon` publishes `initialized` last, under a build lock -/
 def current : Cfg := { beforeFix with
-  setVoidClearsTyped := true, resortValue := .invalidate, updRefreshCreated := true, updRefreshUpdated := true, updRefreshValue := true }
+  initialisedAfterFill := true, setVoidClearsTyped := true, resortValue := .invalidate, updRefreshCreated := true, updRefreshUpdated := true, updRefreshValue := true }
 
 /-- the repaired facts -/
 def repaired : Cfg := { beforeFix with
+  initialisedAfterFill := true,
   resortValue := .own, coldFilterValueType := true, addGuardValueType := true,
   updRefreshCreated := true, updRefreshUpdated := true, updRefreshValue := true, valueShared := false }
 
@@ -479,7 +536,13 @@ theorem witness_value_mixed_types :
 
 theorem findings_beforeFix : findings beforeFix =
     ["C07-updated-update-stale", "C07-created-update-stale", "C07-value-update-stale",
-     "C07-value-insert-wrong-comparator", "C07-value-index-mixed-types"] := by decide
+     "C07-value-insert-wrong-comparator", "C07-value-index-mixed-types", "C07-first-readers-race"] := by decide
+
+/-- Closed witness of the race: the key index of a one-record swamp is not built; the first reader
+    has raised `initialized` and not filled the slice yet; the second reader is answered `[]`. -/
+theorem witness_first_readers_race :
+    answerSecond beforeFix (run beforeFix raceHistory) (fullRead .key true) = some [] ∧
+    (answer beforeFix (run beforeFix raceHistory) (fullRead .key true)).map (·.map (·.key)) = some ["k1"] := by decide
 
 /-- after the fixes only the shared, unfiltered value index remains -/
 theorem findings_current : findings current = ["C07-value-index-mixed-types"] := by decide
@@ -571,6 +634,8 @@ structure Facts where
   valueShared : Tri
   flagsSticky : Tri
   setVoidClearsTyped : Tri
+  /-- `buildBeacon` publishes the `initialized` flag after filling and sorting, under a build lock -/
+  initialisedAfterFill : Tri
   /-- `GetBeacon` (used by ShiftMatching, C11) serves all eleven value index types / builds the
       requested type: recorded, not used by the index-read path -/
   getBeaconServesAllValueTypes : Tri
@@ -598,7 +663,7 @@ def cfgOf (f : Facts) : Cfg := {
   updRefreshCreated := f.updRefreshCreated.isYes, updRefreshUpdated := f.updRefreshUpdated.isYes,
   updRefreshValue := f.updRefreshValue.isYes, updRefreshExpireOnFlag := f.updRefreshExpireOnFlag.isYes,
   typeChangeDetected := f.typeChangeDetected.isYes, valueShared := f.valueShared.isYes, flagsSticky := f.flagsSticky.isYes,
-  setVoidClearsTyped := f.setVoidClearsTyped.isYes }
+  setVoidClearsTyped := f.setVoidClearsTyped.isYes, initialisedAfterFill := f.initialisedAfterFill.isYes }
 
 /-- a fact the model depends on was not recognised in the source -/
 def unknownFact (f : Facts) : Option String :=
@@ -614,7 +679,7 @@ def unknownFact (f : Facts) : Option String :=
   if [f.coldFilterCreated, f.coldFilterUpdated, f.coldFilterExpire, f.coldFilterValueType,
       f.addGuardCreated, f.addGuardUpdated, f.addGuardExpire, f.addGuardValueType,
       f.updRefreshCreated, f.updRefreshUpdated, f.updRefreshValue, f.updRefreshExpireOnFlag,
-      f.typeChangeDetected, f.valueShared, f.flagsSticky, f.setVoidClearsTyped].any (· == .unknown) then
+      f.typeChangeDetected, f.valueShared, f.flagsSticky, f.setVoidClearsTyped, f.initialisedAfterFill].any (· == .unknown) then
     some "treasuresForBeacon / addTreasureToBeacons / SaveFunction / treasure flags" else
   none
 
